@@ -108,8 +108,7 @@ def check(rep, ctx):
                     q, issues = (timeflow.read_side if side == "read" else timeflow.write_side)(d["conv"], bits, kind)
                     issues = [i for i in issues if i[0] in ("T-gran", "T-float64", "T-trunc", "T-epoch")]
                     if q is None:
-                        rep.check(R_T, False, construct=fn, stmt=timeflow.show(d["conv"]), message="time conversion not understood",
-                                  instance=f"{construct}|{side}")
+                        rep.limit(f"{fn}: time conversion not understood: {timeflow.show(d['conv'])[:160]}")
                     elif issues:
                         for rule, msg, op in issues:
                             rep.check(R_T, False, construct=fn, stmt=timeflow.show(d["conv"]), message=f"{rule}: {msg}",
